@@ -5,8 +5,12 @@
    length of the results holder.  All theorems are for every seed >= 0 (numpy refuses negative seeds),
    every n_chains and 0 <= chain_index < n_chains, b >= 0, t >= 1 and n >= 0 (the property asks n >= 1). *)
 From Coq Require Import ZArith List.
+(* the real sampler object (for "resets the model"); imported first: Model.Sampling's names (sample, ...) take precedence below *)
+From Coq Require Import QArith Qcanon.
+From Batchie Require Import Lib.PyRt Lib.Num Model.Gibbs Generated.SrcGibbsObj Proofs.C17Reset.
 From Batchie Require Import Lib.Sexp Model.Sampling Proofs.C17Sampling.
 From Batchie Require Import Generated.SrcSampling Proofs.C17Source.
+From Batchie Require Import Proofs.C17Vi.
 Import ListNotations.
 Open Scope Z_scope.
 
@@ -111,6 +115,79 @@ Theorem C17_negative_index_aliases : forall seed nc,
 Proof. exact c17_negative_index_aliases. Qed.
 Print Assumptions C17_negative_index_aliases.
 
+(* ---- the generator clauses on whole runs, per model class (gap review g5, C17 gap 2) ---- *)
+
+(* MCMC models: two successful runs for different chain indices below n_chains hand different keys to set_rng, whatever
+   b, t, n and the holders are.  PARTIAL for the same reason as C17_streams_distinct_partial (keys, not streams). *)
+Theorem C17_mcmc_chains_distinct_partial : forall seed nc ci1 ci2 b1 t1 n1 l1 b2 t2 n2 l2 tr1 len1 tr2 len2,
+  0 <= ci1 < nc -> 0 <= ci2 < nc -> ci1 <> ci2 ->
+  sample 0 seed (Some nc) (Some ci1) (Some b1) (Some t1) n1 l1 0%nat = Ok (tr1, len1) ->
+  sample 0 seed (Some nc) (Some ci2) (Some b2) (Some t2) n2 l2 0%nat = Ok (tr2, len2) ->
+  handed_key tr1 <> handed_key tr2.
+Proof. exact c17_mcmc_chains_distinct. Qed.
+Print Assumptions C17_mcmc_chains_distinct_partial.
+
+(* VI models: n_chains, chain_index (and n_burnin, thin) are not read at all - the generator is default_rng(seed) *)
+Theorem C17_vi_generator_ignores_chain : forall seed nc ci b t nc' ci' b' t' n len0 ret,
+  sample 1 seed nc ci b t n len0 ret = sample 1 seed nc' ci' b' t' n len0 ret.
+Proof. exact c17_vi_ignores_chain. Qed.
+Print Assumptions C17_vi_generator_ignores_chain.
+
+Theorem C17_vi_handed_key : forall seed nc ci b t n len0 ret tr len,
+  sample 1 seed nc ci b t n len0 ret = Ok (tr, len) -> handed_key tr = Some (seed, []).
+Proof. exact c17_vi_handed_key. Qed.
+Print Assumptions C17_vi_handed_key.
+
+(* REFUTED (a finding, KNOWN_FINDINGS vi-chains-share-generator): for a VI model the clause "a different stream for every other
+   chain index" fails inside the property's quantifier - seed 0, n_chains 2, chain indices 0 and 1, n = 1 *)
+Theorem C17_vi_streams_distinct_refuted :
+  exists seed nc ci1 ci2 n tr1 len1 tr2 len2,
+    0 <= seed /\ 1 <= n /\ 0 <= ci1 < nc /\ 0 <= ci2 < nc /\ ci1 <> ci2 /\
+    sample 1 seed (Some nc) (Some ci1) (Some 0) (Some 1) n 0 (Z.to_nat n) = Ok (tr1, len1) /\
+    sample 1 seed (Some nc) (Some ci2) (Some 0) (Some 1) n 0 (Z.to_nat n) = Ok (tr2, len2) /\
+    handed_key tr1 = handed_key tr2.
+Proof. exact c17_vi_streams_distinct_refuted. Qed.
+Print Assumptions C17_vi_streams_distinct_refuted.
+
+(* ---- "resets the model": what the reset_model that sample() calls does on the real sampler (C17 gap 1) ----
+   In the model above Reset is an event; for LegacySparseDrugComboImpl (the object SparseDrugCombo.reset_model forwards to,
+   C08_model_is_source_sdc_reset_model) the method is re-translated from /repo on every run: *)
+Theorem C17_real_reset_is_source : forall o, src_impl_reset_model o = Ok (set_pi_st o (reset_st (pi_st o))).
+Proof. exact c17_real_reset_is_source. Qed.
+Print Assumptions C17_real_reset_is_source.
+
+(* PARTIAL: on a state with the shapes __init__ allocates it restores the embeddings, intercept, observation precision, cache *)
+Theorem C17_real_reset_restores_embeddings_partial : forall g s, shapes g s ->
+  W (reset_st s) = W (init_st g) /\ W0 (reset_st s) = W0 (init_st g) /\ V2 (reset_st s) = V2 (init_st g) /\
+  V1 (reset_st s) = V1 (init_st g) /\ V0 (reset_st s) = V0 (init_st g) /\ alpha (reset_st s) = alpha (init_st g) /\
+  prec (reset_st s) = prec (init_st g) /\ Mu (reset_st s) = Mu (init_st g).
+Proof. exact c17_real_reset_restores_embeddings. Qed.
+Print Assumptions C17_real_reset_restores_embeddings_partial.
+
+(* ... and keeps every horseshoe / gamma-process precision and the step counter of the previous chain *)
+Theorem C17_real_reset_keeps_precisions : forall o o', src_impl_reset_model o = Ok o' ->
+  tau (pi_st o') = tau (pi_st o) /\ tau0 (pi_st o') = tau0 (pi_st o) /\
+  phi2 (pi_st o') = phi2 (pi_st o) /\ phi1 (pi_st o') = phi1 (pi_st o) /\ phi0 (pi_st o') = phi0 (pi_st o) /\
+  eta2 (pi_st o') = eta2 (pi_st o) /\ eta1 (pi_st o') = eta1 (pi_st o) /\ eta0 (pi_st o') = eta0 (pi_st o) /\
+  gam (pi_st o') = gam (pi_st o) /\ pi_steps o' = pi_steps o.
+Proof. exact c17_real_reset_keeps_precisions. Qed.
+Print Assumptions C17_real_reset_keeps_precisions.
+
+(* so the reset state is the constructed one exactly when those precisions still have their initial values *)
+Theorem C17_real_reset_restores_iff : forall g s, shapes g s ->
+  (reset_st s = init_st g <->
+   tau s = tau (init_st g) /\ tau0 s = tau0 (init_st g) /\ phi2 s = phi2 (init_st g) /\ phi1 s = phi1 (init_st g) /\
+   phi0 s = phi0 (init_st g) /\ eta2 s = eta2 (init_st g) /\ eta1 s = eta1 (init_st g) /\ eta0 s = eta0 (init_st g) /\
+   gam s = gam (init_st g)).
+Proof. exact c17_real_reset_restores_iff. Qed.
+Print Assumptions C17_real_reset_restores_iff.
+
+(* REFUTED (a finding, KNOWN_FINDINGS reset-model-keeps-hyperparameters; the harness kind `real` runs it on the real objects):
+   "reset_model restores the constructed parameter state" *)
+Theorem C17_real_reset_restores_refuted : exists g s, shapes g s /\ reset_st s <> init_st g.
+Proof. exact c17_real_reset_restores_refuted. Qed.
+Print Assumptions C17_real_reset_restores_refuted.
+
 (* non-vacuity *)
 Example C17_trace_example :
   sample 0 5 (Some 3) (Some 1) (Some 1) (Some 2) 2 0 0%nat
@@ -128,6 +205,9 @@ Example C17_full_holder_refused_example :
 Proof. vm_compute. reflexivity. Qed.
 Example C17_vi_example :
   sample 1 7 None None None None 2 0 2%nat = Ok ([Reset; SetRng 7 []; SampleVI 2; Record; Record], 2).
+Proof. vm_compute. reflexivity. Qed.
+Example C17_handed_key_example :
+  handed_key [Reset; SetRng 5 [1]; Step; Record] = Some (5, [1]).
 Proof. vm_compute. reflexivity. Qed.
 Example C17_index_out_of_range_example : rng_key 5 3 3 = Err 4.
 Proof. vm_compute. reflexivity. Qed.
